@@ -46,6 +46,8 @@ pub struct FileH<'a> {
 pub struct DirH<'a> {
     pub d: FDir<'a>,
     pub node: NodeId,
+    /// the handle was opened through the ".." entry of this directory (it then references that slot on disk)
+    pub via: Option<NodeId>,
 }
 
 pub struct Session<'a> {
